@@ -935,7 +935,9 @@ class ProductSpaceElement(LinearSpaceElement):
                         # not to retrieve scalar values from these
                         # elements, we use a slice of size 1.
                         idx = indices[1]
-                        indexed = [p[idx:idx + 1] for p in part]
+                        if isinstance(idx, Integral):
+                            idx = slice(idx, idx + 1 if idx != -1 else None)
+                        indexed = [p[idx] for p in part]
                     else:
                         # Here we're still in the "product space chain",
                         # so we can use recursion to go on.
